@@ -199,12 +199,66 @@ class _Exec:
             self.events.append(("t?", st, st.value.func.attr))
 
 
+def _same_stamp_test(ctx, f, test):
+    """Is `test` a comparison of the update's time with the LAST recorded time?  ('exact', polarity) for == / != (polarity +1: true
+    means "same stamp"), ('close', polarity) for a closeness test (isclose / abs(difference) < tol), None otherwise."""
+    selfn = f.self_name
+    tpar = [p for p in f.params if p != selfn]
+    tname = tpar[0] if tpar else None
+    t = _N(ctx, f, test)
+    neg = 1
+    while isinstance(t, ast.UnaryOp) and isinstance(t.op, ast.Not):
+        t, neg = t.operand, -neg
+
+    def is_time(e):
+        e = _strip_float(e)
+        return isinstance(e, ast.Name) and e.id == tname
+
+    def is_last(e):
+        return isinstance(e, ast.Subscript) and _is_self_attr(e.value, selfn, "_t") and (
+            (isinstance(e.slice, ast.UnaryOp) and isinstance(e.slice.op, ast.USub) and isinstance(e.slice.operand, ast.Constant) and e.slice.operand.value == 1)
+            or (isinstance(e.slice, ast.Constant) and e.slice.value == -1)
+            or (isinstance(e.slice, ast.BinOp) and isinstance(e.slice.op, ast.Sub) and _is_self_attr(e.slice.left, selfn, "_n")
+                and isinstance(e.slice.right, ast.Constant) and e.slice.right.value == 1))
+    if isinstance(t, ast.Compare) and len(t.ops) == 1:
+        l, op, r = t.left, t.ops[0], t.comparators[0]
+        if (is_time(l) and is_last(r)) or (is_last(l) and is_time(r)):
+            if isinstance(op, ast.Eq):
+                return ("exact", neg)
+            if isinstance(op, ast.NotEq):
+                return ("exact", -neg)
+        # abs(t - last) < tol
+        a = l if isinstance(l, ast.Call) and call_name(l) in ("abs", "fabs") else None
+        if a is not None and a.args and isinstance(a.args[0], ast.BinOp) and isinstance(a.args[0].op, ast.Sub) \
+                and ((is_time(a.args[0].left) and is_last(a.args[0].right)) or (is_last(a.args[0].left) and is_time(a.args[0].right))):
+            return ("close", neg if isinstance(op, (ast.Lt, ast.LtE)) else -neg)
+    if isinstance(t, ast.Call) and call_name(t) in ("isclose", "allclose") and len(t.args) >= 2 \
+            and ((is_time(t.args[0]) and is_last(t.args[1])) or (is_last(t.args[0]) and is_time(t.args[1]))):
+        return ("close", neg)
+    return None
+
+
 def r2_state_advances_together(ctx, rid):
     f = get_method(ctx, _cls(ctx), "update")
     cfg = ctx.cfg(f)
     paths = enumerate_paths(cfg)
     normal = [p for p in paths if p[-1] is cfg.EXIT]
     ctx.require(normal, f"{rid}: update() has no normal path")
+    stamp_tests = {s: _same_stamp_test(ctx, f, s.test) for s in cfg.stmts() if isinstance(s, ast.If) and _same_stamp_test(ctx, f, s.test)}
+    for s_, (kind_, _pol) in stamp_tests.items():
+        if kind_ == "close":
+            ctx.violation(rid, f, s_, f"`{norm(s_)[:70]}` treats an update whose time is merely CLOSE to the last recorded time as a repeated stamp: "
+                                      f"strictly increasing stamps inside the tolerance (default rtol scales with t) overwrite the last record instead "
+                                      f"of being appended, so hist(t_i) is no longer y_i", label="repeated stamp is decided by exact equality")
+
+    def same_stamp_path(p):
+        for k, x in enumerate(p[:-1]):
+            if x in stamp_tests and stamp_tests[x][0] == "exact":
+                labels = cfg.g[x][p[k + 1]]["labels"]
+                taken = "true" in labels
+                if (stamp_tests[x][1] > 0) == taken:
+                    return x
+        return None
     for p in normal:
         ex = _Exec(ctx, f)
         for s in p:
@@ -214,6 +268,17 @@ def r2_state_advances_together(ctx, rid):
         label = "path " + cfg.path_str(p)
         facts = {"path": cfg.path_str(p), "events": [(k, str(d)) for k, _, d in ex.events], "counter_after": str(sp.simplify(ex.cur))}
         stores = [(s, d) for k, s, d in ex.events if k == "y"]
+        g_ = same_stamp_path(p)
+        if g_ is not None:
+            # update(t, y) with t equal to the last recorded time (not reachable for strictly increasing stamps): the only sound
+            # reaction other than a refusal is to replace the state of that last record and leave times and counter alone
+            if kinds == ["y"] and sp.simplify(stores[0][1] + 1) == 0 and sp.simplify(ex.cur - N0) == 0:
+                ctx.ok(rid, f, g_, "an update for exactly the last recorded time replaces that record's state; times and counter unchanged",
+                       facts, label="repeated stamp replaces the last record")
+            else:
+                ctx.violation(rid, f, g_, f"an update for the last recorded time changes the history other than by replacing the last row "
+                                          f"(events: {kinds}, counter {sp.simplify(ex.cur)})", facts, label="repeated stamp replaces the last record")
+            continue
         if kinds.count("t") != 1 or "t?" in kinds:
             ctx.violation(rid, f, f.node, f"a non-raising path of update() does not append exactly one time to the time list (events: {kinds})",
                           facts, label=label)
@@ -304,6 +369,15 @@ def r3_bounded_history_refuses(ctx, rid):
             isinstance(c.func, ast.Attribute) and c.func.attr == "_grow" and isinstance(c.func.value, ast.Name) and c.func.value.id == selfn
             for c in stmt_calls(s))
     stores = [s for s in cfg.stmts() if is_store(s)]
+    # a store that replaces the LAST valid row under an exact same-stamp test (R2) needs no room
+    stamp_ifs = [s for s in cfg.stmts() if isinstance(s, ast.If) and (_same_stamp_test(ctx, f, s.test) or ("", 0))[0] == "exact"]
+
+    def replaces_last(s):
+        idx = _N(ctx, f, s.targets[0].slice)
+        last = isinstance(idx, ast.BinOp) and isinstance(idx.op, ast.Sub) and _is_self_attr(idx.left, selfn, "_n") \
+            and isinstance(idx.right, ast.Constant) and idx.right.value == 1
+        return last and any(contains(g, s) for g in stamp_ifs)
+    stores = [s for s in stores if not replaces_last(s)]
     ctx.require(stores, f"{rid}: no row store found in update()")
     tests = {}
     for s in cfg.stmts():
